@@ -436,3 +436,122 @@ def thread_stress(seconds=1.5, nthreads=4):
     finally:
         _sys.setswitchinterval(old)
     return count[0], bad
+
+
+# ------------------------------------------------------------------------------ zones WITHOUT is_ambiguous()
+class RefTz(D.tzinfo):
+    """A hand-written PEP 495 tzinfo over a piecewise-constant offset function (no is_ambiguous
+    method, dst() always zero: repeated intervals caused by changes of the STANDARD offset)."""
+
+    def __init__(self, init, trans):
+        self.init, self.trans = init, list(trans)
+        self.ts = [t for t, _o in self.trans]
+        self.offs = [init] + [o for _t, o in self.trans]
+
+    def _off_utc(self, u):
+        import bisect
+        return self.offs[bisect.bisect_right(self.ts, u)]
+
+    def _pre(self, w):
+        return sorted(set(w - o for o in set(self.offs) if self._off_utc(w - o) == o))
+
+    def utcoffset(self, dt):
+        w = secs(dt.replace(tzinfo=None))
+        pre = self._pre(w)
+        if pre:
+            return D.timedelta(seconds=self._off_utc(pre[-1] if dt.fold else pre[0]))
+        for k, (t, o) in enumerate(self.trans):          # imaginary: PEP 495
+            p = self.offs[k]
+            if t + p <= w < t + o:
+                return D.timedelta(seconds=o if dt.fold else p)
+        raise AssertionError("reference zone: wall time neither existing nor in a gap")
+
+    def dst(self, dt):
+        return D.timedelta(0)
+
+    def tzname(self, dt):
+        return "REF"
+
+    def fromutc(self, dt):
+        u = secs(dt.replace(tzinfo=None))
+        w = u + self._off_utc(u)
+        pre = self._pre(w)
+        return (EPOCH + D.timedelta(seconds=w, microseconds=dt.microsecond)).replace(tzinfo=self, fold=int(pre[0] < u))
+
+
+FOREIGN_ZONES = ["America/Caracas", "Europe/Moscow", "Asia/Pyongyang", "Europe/Dublin", "America/New_York",
+                 "Pacific/Apia", "Africa/Monrovia", "Australia/Lord_Howe", "America/Adak", "Asia/Kathmandu"]
+
+
+def run_foreign(o, tier):
+    """tz.datetime_ambiguous / datetime_exists / resolve_imaginary on zones that have NO is_ambiguous()
+    (module-level fallback paths): the stdlib zoneinfo.ZoneInfo read from corpus TZif bytes and a
+    hand-written PEP 495 tzinfo over the same transitions; expected values from the extracted SPEC."""
+    import zoneinfo
+    from dateutil import tz
+    r = C.rng("foreign")
+    run_foreign.gap_reported_ambiguous = 0
+    names = T.unpack_corpus()
+    zl = [z for z in FOREIGN_ZONES if z in names]
+    if tier != "quick":
+        rest = sorted(set(names.values()) - set(names[z] for z in zl))
+        zl += r.sample(rest, 60)
+    n, bad = 0, []
+    for zn in zl:
+        b = T.zone_bytes(zn, names)
+        inf = T.info(o, b)
+        if inf.get("err") or not inf.get("wf_zone") or len(inf["trans"]) < 3:
+            continue
+        tr = inf["trans"]
+        zones = [("RefTz:" + zn, RefTz(inf["init"], tr))]
+        try:
+            zones.append(("ZoneInfo:" + zn, zoneinfo.ZoneInfo.from_file(io.BytesIO(b))))
+        except Exception:
+            pass
+        # wall times around the transitions strictly inside the version-1 range
+        idx = list(range(1, len(tr) - 2))
+        if len(idx) > (25 if tier == "quick" else 80):
+            keep = [i for i in idx if tr[i][1] != tr[i - 1][1]]
+            idx = sorted(set(r.sample(keep, min(len(keep), 25 if tier == "quick" else 80))))
+        ws = set()
+        for i in idx:
+            t, oo = tr[i]
+            p = tr[i - 1][1]
+            a, bb = t + min(p, oo), t + max(p, oo)
+            for x in (a - 1, a, (a + bb) // 2, bb - 1, bb, a - 3600, bb + 3600):
+                if tr[1][0] + 2 * 86400 < x < tr[-2][0] - 2 * 86400:
+                    ws.add(x)
+        ws = sorted(ws)
+        if not ws:
+            continue
+        sp = T.spec_wall(o, b, ws)
+        for zname, z in zones:
+            for k, w in enumerate(ws):
+                s = sp[k]
+                npre = len(s["pre"])
+                for f in (0, 1):
+                    n += 1
+                    naive = (EPOCH + D.timedelta(seconds=w)).replace(fold=f)
+                    aware = naive.replace(tzinfo=z)
+                    got = T.guard(lambda: (int(bool(tz.datetime_ambiguous(naive, z))), int(bool(tz.datetime_ambiguous(aware))),
+                                           int(bool(tz.datetime_exists(naive, z))),
+                                           T.naive_s(tz.resolve_imaginary(aware))[0]))
+                    why = None
+                    if not T.is_ok(got):
+                        why = "exception"
+                    elif npre == 0 and (got[0] or got[1]):
+                        # observation, not graded: for a PEP 495 zone the fold changes utcoffset() inside a gap as
+                        # well, so the fallback calls imaginary times ambiguous (foreign tzinfo objects are outside
+                        # the zone set of C05; see notes/tzfile.md)
+                        run_foreign.gap_reported_ambiguous += 1
+                    elif npre >= 1 and (got[0] != int(npre == 2) or got[1] != int(npre == 2)):
+                        why = "datetime_ambiguous (zone without is_ambiguous) disagrees with the number of UTC pre-images"
+                    elif got[2] != int(npre >= 1):
+                        why = "datetime_exists (zone without is_ambiguous) disagrees with the number of UTC pre-images"
+                    elif npre >= 1 and got[3] != w:
+                        why = "resolve_imaginary changed an existing wall time"
+                    elif npre == 0 and got[3] != s["resolve"]:
+                        why = "resolve_imaginary does not move forward by the width of the gap"
+                    if why:
+                        bad.append({"zone": zname, "w": w, "fold": f, "why": why, "impl": got, "expected": s})
+    return n, bad
